@@ -174,7 +174,7 @@ func (a *nilAn) implsFor(cc *ssa.CallCommon) []*ssa.Function {
 
 // slotElemTypes: concrete validator types stored at parent.field[idx] by the parent's constructor.
 func (a *nilAn) slotElemTypes(parent *types.Named, field, idx int) []*types.Named {
-	key := fmt.Sprintf("%s#%d#%d", parent.Obj().Name(), field, idx)
+	key := fmt.Sprintf("%s#%d#%d", core.KnownTypeName(parent), field, idx)
 	if a.slotTypes == nil {
 		a.slotTypes = map[string][]*types.Named{}
 	}
@@ -353,7 +353,7 @@ func (a *nilAn) initFieldInvariants() {
 			if !isNillable(s.Val.Type()) {
 				return
 			}
-			k := n.Obj().Name() + "." + fname
+			k := core.KnownTypeName(n) + "." + fname
 			stores[k] = append(stores[k], st{f, s})
 		})
 	}
@@ -562,7 +562,7 @@ func (a *nilAn) nonNil(v ssa.Value, at ssa.Instruction, depth int) bool {
 	case *ssa.Field:
 		if nn := core.NamedOf(x.X.Type()); nn != nil {
 			_, fname, _ := core.FieldOf(x)
-			if a.fieldNonNil[nn.Obj().Name()+"."+fname] && nn.Obj().Pkg() == a.p.Main.Pkg {
+			if a.fieldNonNil[core.KnownTypeName(nn)+"."+fname] && nn.Obj().Pkg() == a.p.Main.Pkg {
 				return true
 			}
 		}
@@ -608,7 +608,7 @@ func (a *nilAn) nonNil(v ssa.Value, at ssa.Instruction, depth int) bool {
 			n := core.NamedOf(src.X.Type())
 			_, fname, _ := core.FieldOf(src)
 			if n != nil {
-				if a.fieldNonNil[n.Obj().Name()+"."+fname] && n.Obj().Pkg() == a.p.Main.Pkg {
+				if a.fieldNonNil[core.KnownTypeName(n)+"."+fname] && n.Obj().Pkg() == a.p.Main.Pkg {
 					return true
 				}
 				if _, ok := a.slotFields.slots[n][src.Field]; ok {
